@@ -80,6 +80,27 @@ func builderTargets(c *Ctx) []builderTarget {
 }
 
 func fingerprintOf(c *Ctx, t builderTarget) []string {
+	// delegation transparency at function level: a builder that only hands its arguments to a sibling is the sibling's
+	// fingerprint with the sibling's parameters replaced by what is handed in
+	if t.kind != "recipe" && t.kind != "modifier" && t.kind != "matcher" {
+		if inner := delegationOf(t.fn); inner != nil && inner.Call.StaticCallee().Signature.Recv() == nil {
+			g := inner.Call.StaticCallee()
+			e := newE6(c, t.fn)
+			e.allCalls = true
+			m := map[string]string{}
+			for i, p := range g.Params {
+				if i < len(inner.Call.Args) {
+					m[p.Name()] = e.argDesc(inner.Call.Args[i])
+				}
+			}
+			lines := fingerprintOf(c, builderTarget{name: t.name, fn: g, kind: t.kind})
+			out := make([]string, len(lines))
+			for i, l := range lines {
+				out[i] = e6SubstParams(l, m)
+			}
+			return out
+		}
+	}
 	switch t.kind {
 	case "recipe":
 		lines, why := e6Recipe(c, t.fn)
